@@ -61,7 +61,10 @@ var endings = []string{"logout", "drop", "drop-inflight", "drop-mid-literal", "d
 //	             then dropped; RemoveUser, Close (GluonLocks.ascode.queue: the pump goroutine must not be left behind)
 //	9101 stream  RemoveUser and Close while the connector keeps delivering updates (the forwarder must not block for ever
 //	             on an update nobody will take: RemoveUserReturns / CloseReturns)
-var directedRounds = []int{9100, 9101}
+//	9102 purge   the remote deletes a message that sessions still show; the sessions leave one after the other while another
+//	             one keeps publishing changes: the state teardown that purges the message (removeState) against the
+//	             publication of updates (lock order statesLock / database)
+var directedRounds = []int{9100, 9101, 9102}
 
 func directed(seed int64, round int) *scenario {
 	switch round {
@@ -70,6 +73,13 @@ func directed(seed int64, round int) *scenario {
 			Clients:  []clientSc{{User: 0, Steps: []string{"noop"}, End: "slow-reader"}, {User: 0, Steps: []string{"select", "noop"}, End: "stay"}},
 			Updates:  []string{"flags"},
 			Shutdown: []shutStep{{Call: "remove:0", At: 0}, {Call: "close", At: 0}}}
+	case 9102:
+		return &scenario{Seed: seed, Round: round, Users: 1, Directed: "purge",
+			Clients: []clientSc{{User: 0, Steps: []string{"select", "noop", "noop", "noop"}, End: "logout"},
+				{User: 0, Steps: []string{"select", "store", "store", "store", "store", "store", "store"}, End: "logout"},
+				{User: 0, Steps: []string{"select", "noop", "noop", "noop", "noop", "noop"}, End: "drop"}},
+			Updates:  []string{"delete-old", "noop", "noop"},
+			Shutdown: []shutStep{{Call: "remove:0", At: 22}, {Call: "close", At: 22}}}
 	case 9101:
 		return &scenario{Seed: seed, Round: round, Users: 1, Directed: "stream", Stream: true,
 			Clients:  []clientSc{{User: 0, Steps: []string{"select", "noop"}, End: "stay"}},
@@ -418,6 +428,9 @@ func (e *roundEnv) client(ci int, c clientSc, rnd *rand.Rand, wg *sync.WaitGroup
 			continue
 		}
 		box := []string{"box1", "box2", "INBOX"}[rnd.Intn(3)]
+		if e.sc.Directed == "purge" {
+			box = "box1" // where the message the remote deletes is
+		}
 		switch st {
 		case "noop":
 			_, alive = e.call(ci, "NOOP", func() wire.Result { return cl.Cmd("NOOP") })
@@ -646,6 +659,8 @@ func (e *roundEnv) updater(rnd *rand.Rand, wg *sync.WaitGroup) {
 			up = imap.NewMailboxCreated(u.Conn.NewMailbox(fmt.Sprintf("rbx-%d-%d", ui, extra), fmt.Sprintf("remote%d", extra)))
 		case "delete":
 			up = imap.NewMessagesDeleted(imap.MessageID(fmt.Sprintf("x%d-%d", ui, extra)))
+		case "delete-old": // a message of the set-up, which the sessions that have its mailbox selected still show
+			up = imap.NewMessagesDeleted(ids[0])
 		default:
 			up = imap.NewNoop()
 		}
